@@ -33,11 +33,13 @@ const E18: u128 = 1_000_000_000_000_000_000;
 /// denom pairs the worlds are built with (`dn=<k>` on the init line; the model does not look at it):
 /// plain denoms, an IBC voucher (upper-case hex), a token-factory denom whose last segment is the other
 /// asset's denom, a denom that is a prefix of the other one, mixed case
-const DENOM_SETS: [[&str; 2]; 6] = [
+const DENOM_SETS: [[&str; 2]; 8] = [
     ["uluna", "uusd"],
     ["uwhale", "factory/migaloo1creator/uwhale"],
     ["ibc/27394FB092D2ECCD56123C74F36E4C1F926001CEADA9CA97EA622B25F41E5EB2", "uusd"],
     ["uusd", "uusdc"],
+    ["uusdc", "uusd"],
+    ["factory/migaloo1creator/uwhale", "uwhale"],
     ["uwhale", "ibc/B3504E092456BA618CC28AC671A71FB08C6CA0FD0BE7C8A5B5A3E2DD933CC9E4"],
     ["factory/migaloo1creator/Ulp", "factory/migaloo1creator/ulp"],
 ];
@@ -627,7 +629,29 @@ impl PairEngine {
                     (Some(a), Ok(b), Ok(c), Some(dd), Some(e)) if b <= 1 => (a, b, c, dd, e),
                     _ => return "bad-op".into(),
                 };
+                // ---- C02: the quote for this very swap, taken in the same state
+                let sim: Outcome<p::SimulationResponse> = {
+                    let (app, info) = (&w.app, w.info(dir));
+                    guarded(|| app.wrap().query_wasm_smart(&pair, &p::QueryMsg::Simulation { offer_asset: Asset { info: info.clone(), amount: off.into() } }))
+                };
                 let o = Self::run_swap(w, u, dir, off, off, ms, Some(to), false);
+                if w.cp {
+                    if let (Outcome::Ok(sr), Outcome::Ok(res)) = (&sim, &o) {
+                        let a = swap_attrs(res, &w.pair).first().cloned().unwrap_or([u128::MAX; 5]);
+                        let q = [sr.return_amount.u128(), sr.spread_amount.u128(), sr.swap_fee_amount.u128(), sr.protocol_fee_amount.u128(), sr.burn_fee_amount.u128()];
+                        mon.check("C02", "pair_simulation_eq_execution", q == a, d(format!("{op}: Simulation {q:?}, the swap itself {a:?}")));
+                    }
+                    if let Outcome::Ok(sr) = &sim {
+                        // proceeds + the three fees = the constant-product gross output on the REPORTED reserves
+                        // (balance − pending protocol fees, each looked up under the asset's own name)
+                        let (ro, ra) = (pre.bal[dir].saturating_sub(pre.pend[dir]), pre.bal[1 - dir].saturating_sub(pre.pend[1 - dir]));
+                        if ro.checked_add(off).map(|x| x > 0).unwrap_or(false) {
+                            let gross = u512(ra) * u512(off) / (u512(ro) + u512(off));
+                            let parts = u512(sr.return_amount.u128()) + u512(sr.swap_fee_amount.u128()) + u512(sr.protocol_fee_amount.u128()) + u512(sr.burn_fee_amount.u128());
+                            mon.check("C02", "pair_simulation_gross_identity_on_reported_reserves", parts == gross, d(format!("{op}: quote sums to {parts}, reported reserves ({ro},{ra}) give gross {gross}")));
+                        }
+                    }
+                }
                 Self::after_swap(w, mon, &op, &o, &pre, u, to, dir, off);
                 o
             }
